@@ -1294,8 +1294,11 @@ func (w *worker) writeCombiner(key TaskName) {
 	for part := range w.combiners[key] {
 		part := part
 		combiner := <-w.combiners[key][part]
-		g.Go(func() error {
-			err := w.commitLimiter.Acquire(ctx, 1)
+		g.Go(func() (err error) {
+			// Merging the combiner's spilled runs calls the user's
+			// combine function.
+			defer recoverFatal(&err)
+			err = w.commitLimiter.Acquire(ctx, 1)
 			if err != nil {
 				return err
 			}
